@@ -87,7 +87,19 @@ fn comment_file(lang: &str, rng: &mut Rng) -> B {
     let mut last_was_comment = false;
     for _ in 0..nseg {
         let fill = FILL[rng.below(FILL.len())];
-        match rng.below(8) {
+        match if lang == "go" && !last_was_comment && rng.chance(1, 5) { 100 } else { rng.below(8) } {
+            // Go: a `//go:` directive line opens a comment block; it is addressed to the tool chain (never prose), the
+            // comment lines behind it are prose
+            100 => {
+                let d = *rng.pick(&["go:build linux", "go:generate stringer -type=Pill", "go:build ignore", "go:noinline", "go:embed hello.txt"]);
+                b.nonprose("code", &format!("{indent}//{d}\n"));
+                for _ in 0..rng.range(0, 2) {
+                    b.nonprose("leader", &format!("{indent}// "));
+                    { let k = rng.range(2, 5); b.prose_words(rng, k); }
+                    b.nonprose("ws", "\n");
+                }
+                last_was_comment = true;
+            }
             // a line addressed to a tool, followed by prose in the same comment block (whatever the front-end makes of
             // the first line - words or nothing -, the second keeps its place)
             6 => {
